@@ -94,6 +94,9 @@ def run_B3(chk):
                 f"whenever both operands own a private block of equal size between two common ones" if bad else "")
 
 MUTANTS = [
+    ('single operand returned before the amplitudes are applied', 'yastn/tensor/_algebra.py', '        tensors = [v * amp if amp is not None else v for v, amp in zip(tensors, amplitudes)]\n\n    if len(tensors) == 1:\n        return tensors[0]\n', '    if len(tensors) == 1:\n        return tensors[0]\n\n    if amplitudes is not None:\n        tensors = [v * amp if amp is not None else v for v, amp in zip(tensors, amplitudes)]\n', 'U7'),
+    ('slices merged across equal gaps', 'yastn/tensor/_auxiliary.py', '        if tmp_a[1] == sl_a[0] and tmp_b[1] == sl_b[0]:', '        if sl_a[0] - tmp_a[1] == sl_b[0] - tmp_b[1]:', 'B3'),
+    ('__contains__ in storage order', 'yastn/tensor/_output.py', '    nsym = a.config.sym.NSYM\n    if len(key) == a.ndim_n * nsym:  # key follows the order of tensor legs; account for lazy transpose, as in __getitem__\n        key = sum((key[n * nsym: (n + 1) * nsym] for n in np.argsort(a.trans).tolist()), ())\n    return key in a.struct.t', '    return key in a.struct.t', 'I9'),
     ("contracted axes of a and b exchanged in the kernel call", "yastn/tensor/_contractions.py", "        data, struct_c, slices_c = _tensordot_nf(a, b, nout_a, nin_a, nin_b, nout_b)", "        data, struct_c, slices_c = _tensordot_nf(a, b, nout_a, nin_b, nin_a, nout_b)", "U4"),
     ("unfuse counts in native order", "yastn/tensor/_merging.py", "        nlegs = [nlegs[hi] for hi in axes_hf]  # axes_mf and axes_uf follow the order of tensor legs\n", "        nlegs = [nlegs[hi] for hi in sorted(axes_hf)]\n", "I4"),
     ("qr Qhfs from meta axes", "yastn/tensor/linalg.py", "    Qhfs = tuple(a.hfs[ii] for ii in out_hl) + (_Fusion(s=(sQ,)),)", "    Qhfs = tuple(a.hfs[ii] for ii in out_ml) + (_Fusion(s=(sQ,)),)", "L1"),
